@@ -620,6 +620,19 @@ def check_C19(tier, seed):
             except shift.NotShiftable:
                 qc.add(W, qs, evs)
 
+    # an attribute expression selected on its own: each satisfying object contributes its value, whatever it is (None too)
+    sel_progs = run.export("GenQuery", "G1s", "PROG", constants=dict(G="G1s", NV=1, LeafLimit=12 if quick else 30, MaxLeaves=1,
+                                                                      MaxNot=1, NeedNot=False), count=False)
+    for p in rng.sample(sel_progs, min(len(sel_progs), 300 if quick else 6000)):
+        n = rng.randint(2, 6)
+        W = {"objs": [{"cls": "A", "f": datasets.obj_fields(rng, n)} for _ in range(n)]}
+        for o in W["objs"]:
+            if rng.random() < 0.5:
+                o["f"]["o"] = {"t": "none", "v": 0}
+        dom = list(range(1, n + 1))
+        rng.shuffle(dom)
+        qc.add(W, [mk_query(p, [dom])], [drain_ev(1), drain_ev(1, eqto=1)], tag="selected-expression")
+
     def falsy_world(n):
         W = {"objs": [{"cls": "A", "f": datasets.obj_fields(rng, n)} for _ in range(n)]}
         for o in W["objs"]:
@@ -804,6 +817,16 @@ def check_C04(tier, seed):
             # caching is on throughout: stage B3 predicts the rows of every full evaluation of the history, starting
             # from empty caches after an evaluation that did not run to completion
             qc.add(W, qs, _session_events(b, 2, b3=True), share_vars=rng.random() < 0.7)
+    # rule trees: an abandoned evaluation (k instances taken, iterator closed) must not change what the next ones conclude
+    for nv in (1, 2):
+        trees = run.export("GenRule", f"trees{nv}", "TREE", constants=dict(MaxNodes=3, NConds=3, NV=nv, WithNext=False),
+                           invariants=("Export", "SizeOK"), count=False)
+        for t in rng.sample(trees, min(len(trees), 200 if quick else 5000)):
+            W, doms = _world_and_doms(rng, nv, quick)
+            q = {"vars": [{"cls": "A", "dom": doms[i]} for i in range(nv)], "flats": [], "bound": [], "desc": "entity",
+                 "quant": "an", "sel": [], "cond": {"k": "true"}, "tree": t, "varkeys": list(range(1, nv + 1))}
+            qc.add(W, [q], [{"op": "abandon", "qi": 1, "k": rng.randint(1, 3)}, {"op": "rule", "qi": 1},
+                            {"op": "abandon", "qi": 1, "k": 1}, {"op": "rule", "qi": 1}], tag="rule-tree-abandoned")
     # an evaluation aborted by the user code of a comparison operand (a method call) at its very first call: nothing has
     # been cached yet when the abandoned evaluation is cleaned up, and the next evaluation must start from scratch
     def _cmp_runs_user_code(p):
@@ -936,11 +959,13 @@ def check_C05(tier, seed, extra_programs=None):
             q = mk_query(p, doms, declare="random")
             qc.add(W, [q, copy.deepcopy(q)], _c05_events(rng, b3=True))
     # the further grammars: for_all, sub-queries, flatten, concatenate (each re-evaluated under both configurations)
-    for g, nvars, fix in (("G3", 2, None), ("G6", 3, None), ("G7i", 1, _no_repeats), ("G7o", 1, _no_repeats), ("G7c", 2, None)):
+    for g, nvars, fix in (("G3", 2, None), ("G3y", 3, None), ("G6", 3, None), ("G7i", 1, _no_repeats), ("G7o", 1, _no_repeats), ("G7c", 2, None)):
         gp = run.export("GenQuery", f"{g}-bfs", "PROG", constants=dict(G=g, NV=2, LeafLimit=12 if quick else 40, MaxLeaves=2, MaxNot=1,
                                                                         NeedNot=False), invariants=("Export", "WellFormed"), count=False)
         if g == "G6":
             gp = [p for p in gp if _the_ok(p)]       # the same domain restrictions as C15
+        if g == "G3y":
+            gp = [p for p in gp if '"i": 3' in json.dumps(p["cond"])]
         for p in rng.sample(gp, min(len(gp), 250 if quick else 6000)):
             W, doms = _world_and_doms(rng, nvars, quick)
             if fix:
@@ -1067,12 +1092,48 @@ def check_C10(tier, seed):
         if ev.get("exc") == "none" and 0 < len(ev["rows"]) < n:
             return digest(q["cond"])
         return None
+    def extra(qc, rng, quick):
+        # a second free variable that occurs only under the quantifier: x qualifies when some y makes the universal
+        # statement true; the for_all is then evaluated once per binding of x
+        run = qc.run
+        progs = run.export("GenQuery", "G3y-bfs", "PROG", constants=dict(G="G3y", NV=3, LeafLimit=10, MaxLeaves=2, MaxNot=1,
+                                                                        NeedNot=False), invariants=("Export", "WellFormed"))
+        progs = [p for p in progs if '"i": 3' in json.dumps(p["cond"])]
+        for p in rng.sample(progs, min(len(progs), 600 if quick else 15000)):
+            W, doms = _world_and_doms(rng, 3, quick)
+            qc.add(W, [mk_query(p, doms)], [drain_ev(), drain_ev()], tag="second-free-variable")
+        # the same on worlds in which y refers to the x objects and holds some of the universal values, the universal
+        # values being the solutions of a sub-query: the quantifier fails for one x after a few universal values and is
+        # evaluated again for the next x
+        def quantified(c):
+            if c["k"] == "forall":
+                return c
+            for k in ("l", "r", "c"):
+                if isinstance(c.get(k), dict) and quantified(c[k]):
+                    return quantified(c[k])
+            return None
+
+        def rooms_shape(p):      # a conjunction under the quantifier that relates y to x and to u; u from a sub-query
+            f = quantified(p["cond"])
+            js = json.dumps(f["c"]) if f else ""
+            return bool(f) and f["ue"]["k"] == "sub" and f["c"]["k"] == "and" and '"i": 1' in js and '"i": 3' in js
+        shaped = [p for p in progs if rooms_shape(p)]
+        # the textbook reading of that shape (y belongs to x, y holds u's value) on the textbook world, many domain orders
+        textbook = [p for p in shaped if '"ref"' in json.dumps(quantified(p["cond"])["c"])
+                    and '"k": "in"' in json.dumps(quantified(p["cond"])["c"])]
+        for p in textbook:
+            for _ in range(8 if quick else 40):
+                W, doms = datasets.rooms_covering_world(rng)
+                qc.add(W, [mk_query(p, doms)], [drain_ev(), drain_ev()], tag="rooms-textbook")
+        for p in rng.sample(shaped, min(len(shaped), 700 if quick else 2300)) * (1 if quick else 3):
+            W, doms = datasets.rooms_covering_world(rng) if rng.random() < 0.8 else datasets.rooms_world(rng)
+            qc.add(W, [mk_query(p, doms)], [drain_ev(), drain_ev()], tag="rooms")
     return _grammar_check(
         "C10", tier, seed, ["G3"],
         "for_all(u, c) and for_all(u.n, c) with c any tree over leaves that mention the universal variable, the free "
         "variable, both (joins, membership, predicates), negated or not, alone or conjoined (either side) with a condition "
         "on the free variable; universal domains are non-empty; TLC computes the universally quantified statement; "
-        "non-trivial = some but not all bindings of the free variable qualify", 2, nontrivial=nontrivial)
+        "non-trivial = some but not all bindings of the free variable qualify", 2, nontrivial=nontrivial, extra=extra)
 
 
 def check_C16(tier, seed):
@@ -1325,9 +1386,18 @@ def check_C11(tier, seed):
             q = {"vars": [{"cls": "A", "dom": doms[0]}, {"cls": "A", "dom": doms[1]}], "flats": [], "bound": [],
                  "desc": "entity", "quant": "infer", "sel": [], "cond": p["cond"], "head": p["head"], "varkeys": [1, 2]}
             qc.add(W, [q], [{"op": "infer", "qi": 1}])
+    # histories: an evaluation abandoned after k instances, then full ones - every full evaluation builds one instance per
+    # satisfying assignment again (heads whose argument is a sub-query keep state of their own below the head)
+    for p in rng.sample(progs, min(len(progs), 400 if quick else 8000)) + \
+            [p for p in progs if '"k": "sub"' in json.dumps(p["head"])][:400 if quick else 8000]:
+        W, doms = _world_and_doms(rng, 2, quick)
+        q = {"vars": [{"cls": "A", "dom": doms[0]}, {"cls": "A", "dom": doms[1]}], "flats": [], "bound": [],
+             "desc": "entity", "quant": "infer", "sel": [], "cond": p["cond"], "head": p["head"], "varkeys": [1, 2]}
+        qc.add(W, [q], [{"op": "abandon", "qi": 1, "k": rng.randint(1, 2)}, {"op": "infer", "qi": 1}, {"op": "infer", "qi": 1}],
+               tag="abandoned-first")
 
     def nontrivial(t):
-        ev = t["evs"][0]
+        ev = [e for e in t["evs"] if e["op"] == "infer"][0]
         if ev.get("exc") == "none" and 0 < len(ev["insts"]) < domain_size(t["qs"][0]):
             return digest([t["qs"][0]["cond"], t["qs"][0]["head"]])
         return None
